@@ -42,6 +42,12 @@ func c03Types() []c03Type {
 	for _, k := range []string{"float32", "float64"} {
 		out = append(out, c03Type{k, desc.Scalar(k), []c03State{{"zero", desc.V{}, true, true}, {"set", desc.V{F: 1.5}, false, false}}})
 	}
+	// named (defined) scalar types, some of which have a String method
+	out = append(out, c03Type{"named-string", desc.NamedScalar("string"), []c03State{{"zero", desc.V{}, true, true}, {"set", desc.Str("abc"), false, false}}})
+	out = append(out, c03Type{"named-int32-enum", desc.NamedScalar("int32"), []c03State{{"zero", desc.V{}, true, true}, {"set", desc.V{I: 5}, false, false}}})
+	out = append(out, c03Type{"named-uint8", desc.NamedScalar("uint8"), []c03State{{"zero", desc.V{}, true, true}, {"set", desc.V{U: 5}, false, false}}})
+	out = append(out, c03Type{"named-float64", desc.NamedScalar("float64"), []c03State{{"zero", desc.V{}, true, true}, {"set", desc.V{F: 1.5}, false, false}}})
+	out = append(out, c03Type{"named-bool", desc.NamedScalar("bool"), []c03State{{"zero", desc.V{}, true, true}, {"set", desc.V{B: true}, false, false}}})
 	out = append(out, c03Type{"bool", desc.Scalar("bool"), []c03State{{"zero", desc.V{}, true, true}, {"set", desc.V{B: true}, false, false}}})
 	for _, ek := range []string{"int", "string"} {
 		e1 := desc.V{I: 1}
